@@ -23,7 +23,7 @@ with open(os.path.join(VERIF, "seeded", "README.md"), "w") as w:
     w.write(f"""# Seeded changes
 
 {n} changes to go-sms-protocol written by independent sub-agents (rounds 1 and 2: two per property and round; round 3: two
-each for 14 properties; rounds 4 and 5: two each for 10 properties per round — rounds 3 to 5 asked for bugs that need call sequences, reused
+each for 14 properties; rounds 4 and 5: two each for 10 properties per round; round 6: two each for all 20, the agents now also given the quantifier text — rounds 3 to 6 asked for bugs that need call sequences, reused
 objects, cooperating sites, the process environment or rare value combinations); each agent saw only the text of its property
 and a scratch checkout, nothing from /verif.  Every change compiles, passes the 297-test suite with the guard off, and comes
 with a demonstration test that fails with the change and passes without it — all of which was re-checked here by
